@@ -121,6 +121,12 @@ class Guards:
             return _const_index(e.slice)
         if isinstance(e, ast.Name) and e.id in self.aliases:
             return self.aliases[e.id]
+        if isinstance(e, ast.Name) and e.id != self.recv.split('.')[0]:
+            # a local assigned more than once: what reaches *this* use
+            from ..model import reaching_values
+            vals = reaching_values(self.f.node, e)
+            if len(vals) == 1 and isinstance(vals[0], ast.Subscript) and norm(vals[0].value) == self.recv + '.children':
+                return _const_index(vals[0].slice)
         return None
 
     def _add(self, test, positive):
@@ -383,7 +389,22 @@ def _symbols_at_by_grammar(ctx, types, c, guards, maxlen=7):
                 if len(w) < need or not guards.admits(g, w):
                     continue
                 out.setdefault(g.name, {})[w[c]] = w
+                _ALL_WORDS.setdefault((id(out), g.name, w[c]), []).append(w)
     return out
+
+
+_ALL_WORDS = {}
+
+
+def _is_shift(per, g0, extra, base, c):
+    """Does an extra symbol at index c *displace* what the other versions have there (one of the base symbols then
+    follows it - or, for an index counted from the end, precedes it), or is it an alternative filling of the same slot?"""
+    for sym in extra:
+        for w in _ALL_WORDS.get((id(per), g0, sym), []):
+            rest = w[c + 1:] if c >= 0 else w[:len(w) + c]
+            if any(x in base for x in rest):
+                return True
+    return False
 
 
 GR10B_EXCEPTIONS = {
@@ -429,7 +450,13 @@ def gr_10b(ctx, rep, modules):
                 tested = _is_tested(f, sub, norm(sub))
                 base = min(sets.values(), key=len)
                 odd = [(g, sorted(v - base), per[g][sorted(v - base)[0]]) for g, v in sorted(sets.items()) if v - base]
-                g0, extra, w = odd[0]
+                shifted = [(g, extra, w) for g, extra, w in odd if _is_shift(per, g, extra, base, c)]
+                if not shifted:
+                    rep.ob('GR-10b', rel, f.qual, '%s on %s: %s only adds alternative fillings of the same slot (%s)'
+                           % (norm(sub), '/'.join(sorted(types)), odd[0][0], odd[0][1]), True,
+                           reason='no version puts another element in front of what the other versions have at this index')
+                    continue
+                g0, extra, w = shifted[0]
                 rep.ob('GR-10b', rel, f.qual, '%s on %s' % (norm(sub), '/'.join(sorted(types))), tested,
                        'in %s this index can hold %s (e.g. %s), in other versions only %s; the code relies on the child '
                        'without looking at what it is' % (g0, extra, ' '.join(w[:6]), sorted(base)),
